@@ -1,6 +1,7 @@
 import re,collections,json,sys
 c=collections.Counter(); ex={}
 for line in open(sys.argv[1]):
+    if not line.startswith("\""): continue
     s=json.loads(line)
     m=re.match(r'BAD (\S+) (\d+) (.*)',s)
     if not m: continue
